@@ -2251,7 +2251,7 @@ fn main() {
                 let p = Plan::derive(&cfg, id);
                 let o = &cfg.origins[p.opos];
                 let sig = format!(
-                    "{:?}|{:?}|{:?}|{}|{}|{}|{}|{:?}|{}|{}",
+                    "{:?}|{:?}|{:?}|{}|{}|{}|{}|{:?}|{}|{}|{}",
                     cfg.stack,
                     o.proto,
                     o.tr,
@@ -2261,9 +2261,21 @@ fn main() {
                     p.req_len.min(1) + (p.req_len > 2048) as usize + (p.req_len > 16384) as usize,
                     std::mem::discriminant(&p.cancel),
                     p.resp_len.min(1) + (p.resp_len > 2048) as usize + (p.resp_len > 16384) as usize,
-                    p.conn_close
+                    p.conn_close,
+                    if p.path == "/" { p.uri_path.len() as i32 } else { -1 }
                 );
                 shapes.insert(fnv1a(sig.as_bytes()));
+                if p.path == "/" {
+                    bump("root_requests", 1);
+                    if p.uri_path.is_empty() {
+                        bump("root_requests_empty_path", 1);
+                    }
+                    match p.query.as_deref() {
+                        None => bump("root_requests_no_query", 1),
+                        Some("") => bump("root_requests_empty_query", 1),
+                        _ => {}
+                    }
+                }
                 if samples.len() < 6 && (id == 1 || id == total_ids) {
                     samples.push(json!({"run": run, "cfg": cfg.to_json(), "request": p.summary(&cfg)}));
                 }
